@@ -293,6 +293,14 @@ def bbox_docs(tier):
     for k in sizes:
         for combo in itertools.permutations(range(n), k) if k < 3 else itertools.combinations(range(n), k):
             yield f'<svg {NS} viewBox="0 0 100 100">' + "".join(DOC_SHAPES[i] for i in combo) + "</svg>"
+    # shapes 0-4 kept groups deep (round 7): side by side, and one nested inside the other's group chain
+    def nest(x, d):
+        for _ in range(d):
+            x = f'<g opacity=".5">{x}</g>'
+        return x
+    for (i, j), da, db in itertools.product(((0, 5), (1, 2), (6, 0), (3, 4)), range(5), range(5)):
+        yield f'<svg {NS} viewBox="0 0 100 100">' + nest(DOC_SHAPES[i], da) + nest(DOC_SHAPES[j], db) + "</svg>"
+        yield f'<svg {NS} viewBox="0 0 100 100">' + nest(DOC_SHAPES[i] + nest(DOC_SHAPES[j], db), da) + "</svg>"
 
 
 def evaluate_rects(case):
@@ -434,7 +442,7 @@ def run(run):
         "gradient-filled rect; and, written in absolute coordinates so that the gradient stays in bounding-box units and shared: rect / ellipse with linear / radial bounding-box gradients, rect with a user-space gradient, singly and in pairs sharing the gradient) placed at each of 25 grid positions relative to the viewBox (inside, outside x8, straddling each side and corner) + covering shapes, 3 viewBoxes (incl. negative and "
         "fractional origin/size), single shapes, all/half of the position pairs of two shapes (in-place mode), kept group around two shapes, triples (thorough); CLI flag on 20 documents. Oracle: "
         "clipped document == original under a clip to the viewBox rectangle (paint stacks and composites at all lattice/probe points outside the band), R4 grammar. Bounding boxes: exact-extrema "
-        "boxes (Bezier derivative roots, ellipse parametrisation) for a library of paths and the C09 shape lattice, document box = union over all ordered selections of 1-2 (thorough: 3) of 8 shapes incl. horizontal / vertical lines and a point; "
+        "boxes (Bezier derivative roots, ellipse parametrisation) for a library of paths and the C09 shape lattice, document box = union over all ordered selections of 1-2 (thorough: 3) of 8 shapes incl. horizontal / vertical lines and a point, plus pairs of shapes each 0-4 kept (translucent) groups deep, side by side or one inside the other's chain; "
         "Rect.union / Rect.intersection on all 81 x 81 pairs of a box lattice incl. zero-width / zero-height boxes. Non-trivial = clip cases where a shape straddles or lies "
         "outside the viewBox; distinct bbox shapes."
     )
